@@ -36,8 +36,9 @@ CLAIMS['C01'] = dict(
           'value construction, and the dispatch loop (every opcode reaches its documented handler with the right arguments and strictness). '
           'Translator side: for nearly every arm of translate_expr / translate_stmt the structure of the emitted opcode sequence (operand '
           'order, the opcode, jump offsets landing exactly past the skipped fragment, Bind vs BindOver) against an opaque recursive call '
-          'that only appends. NOT covered: the composition of the two into a whole-program theorem, VM::run termination, format '
-          'template text, regex, imports; the bounded stand-ins (a table of 134 reference programs, closure / self / cast / select / format families) sample those.'),
+          'that only appends; the `@` template parser SimpleTemplate::parse against the reference reading of a template (literal pieces '
+          'character for character, escapes, placeholder numbering, for every input string). NOT covered: the composition of the two into a '
+          'whole-program theorem, VM::run termination, the text of `@{..}` expression templates, regex, imports; the bounded stand-ins (a table of 134 reference programs, closure / self / cast / select / format families) sample those.'),
     design_ref='DESIGN.md §5 C01',
     note=('Trusted: Verus/Z3; extraction rules listed in evidence; f64 arithmetic/comparison values uninterpreted (R6); Rc/Vec/String models of vstd; '
           'VM::fcall_impl as a pure function of (function, arguments); translate_expr only appends; caller obligations (translator invariants: '
